@@ -32,6 +32,8 @@ MSGS = {
     'UPD1': (UPD_ROUTE, dict(kind='UPD')),
     'UPD_unkfam': (UPD_UNKFAM, dict(kind='UPD')),
     'UPD_malformed': (UPD_MALFORMED, dict(kind='UPD')),
+    # MP_UNREACH_NLRI of the BGP-LS AFI with a SAFI the agent does not know
+    'UPD_lsunreach': (frame(2, b'\x00\x00\x00\x09\x80\x0f\x06\x40\x04\x40\x01\x02\x03'), dict(kind='UPD')),
     'UPD_wdoverrun': (frame(2, b'\x07\x00\x00\x00\x40\x01\x01\x00'), dict(kind='UPD')),     # Withdrawn Routes Length beyond the message
     'UPD_atoverrun': (frame(2, b'\x00\x00\x07\x00\x40\x01\x01\x00'), dict(kind='UPD')),     # Total Path Attribute Length beyond the message
     'NOTI_VER': (frame(3, b'\x02\x01'), dict(kind='NOTI', code=2, sub=1)),
